@@ -18,7 +18,7 @@ func (Engine) Name() string { return "world" }
 // under the outer relay's read lock, where parking is forbidden (R3).
 var yieldSites = []string{
 	"client.handleUpdateReq.beforeLock", "client.enableNotifyUpdate.beforePublish", "client.handleChannelProposal.beforeValidate",
-	"client.handleSyncMsg.beforeLock", "relay.Subscribe", "relay.Cache", "relay.ReleaseCache", "relay.delete", "relay.cachedDelivery",
+	"client.handleSyncMsg.beforeLock", "client.ensureRegistered.beforeRegisterDispute", "relay.Subscribe", "relay.Cache", "relay.ReleaseCache", "relay.delete", "relay.cachedDelivery",
 	"receiver.Next", "watcher.handleRegisteredEvent.locked", "watcher.handleRegisteredEvent.retrieved", "watcher.StopWatching.retrieved",
 }
 
@@ -55,6 +55,8 @@ func (Engine) Generate(prop, tier string, run int, seed uint64) *kernel.Scenario
 			// registered (or concluded) already; every lock boundary yields
 			c := sc.Config
 			c["short_settle_ctx"], c["yield_pct"], c["long_yields"] = 1, 100, int64(ir.Intn(2))
+			// (mostly with a slow spot right before the registration)
+			c["slow_site"] = int64(ir.Weighted([]int{1, 3}))
 			c["event_max_us"] = int64([]int{200, 3000}[ir.Intn(2)])
 			c["ledger_max_us"] = int64([]int{200, 2000}[ir.Intn(2)])
 			for i := range sc.Steps {
